@@ -92,6 +92,25 @@ Definition expect_val (v : rval) : pval :=
   | RStr s => PStr s
   end.
 
+(** [denotes d tok v]: the value text [tok] (what stands between '=' and the trailing blanks/comment)
+    denotes the value [v].  This is the FULL grammar the parser accepts, with its known looseness
+    spelled out as clauses:
+    - strings: [tok] is [s] between two delimiters, the closing one being the first after the opening one;
+    - decimal integers: any text Python's int() accepts ('+5', '007', '1_000' included).  [py_int] has
+      no digit limit; CPython >= 3.11 refuses more than 4300 digits, such a token then falls into the
+      next clause (and is read as hexadecimal if it happens to be accepted there);
+    - LOOSE hexadecimal clause: any text int(tok, 16) accepts once int(tok) has refused it -- with or
+      WITHOUT the 0x prefix, so bare words made of hex digits (1e5, dead, e5) are integers;
+    - floats: any text float() accepts once both integer readings have refused it. *)
+Definition denotes (d tok : str) (v : pval) : Prop :=
+  match v with
+  | PStr s => tok = d ++ s ++ d /\ good_str d s = true
+  | PInt z => prefixb d tok = false /\ py_strip tok = tok /\
+              (py_int tok = Ok z \/ (py_int tok = Err EValue /\ py_int16 tok = Ok z))
+  | PFloat f => prefixb d tok = false /\ py_strip tok = tok /\
+                py_int tok = Err EValue /\ py_int16 tok = Err EValue /\ py_float tok = Ok f
+  end.
+
 (** the part of a line in front of the first '#' (the whole line when there is none) *)
 Definition before_hash (line : str) : str :=
   match find_sub HASH line with Some i => firstn i line | None => line end.
